@@ -273,6 +273,7 @@ package stack
 //@   update after-call readLine#1: rdErr := ret1
 //@   update after-call scan#1: held := held + (ret0 ? len(d) : 0); declined := declined + ((!ret0 && s.state == looking) ? len(d) : 0)
 //@   at-return [everyByteForwardedHeldOrReturned C02 C07] opts != nil && s != nil && werrs(prefix) == old(werrs(prefix)) ==> old(fetched(in)) + (wlen(prefix) - old(wlen(prefix))) + held + len(result1) == fetched(in)
+//@   at-return [unterminatedTailHandedBackNotForwarded C10] opts != nil && s != nil && wlen(prefix) > old(wlen(prefix)) ==> wdata(prefix)[wlen(prefix) - 1] == 10
 //@   at-return [forwardedExactlyWhatTheScannerDeclined C02 C07] opts != nil && s != nil && werrs(prefix) == old(werrs(prefix)) ==> wlen(prefix) - old(wlen(prefix)) == declined
 //@   assert after-call nameArguments#1: [namingOnlyWhenAsked C15] opts.NameArguments
 //@   assert after-call guessPaths#1: [pathGuessingOnlyWhenAsked C18] opts.GuessPaths
